@@ -138,6 +138,26 @@ class Fn:
                     st.append(s_)
         return seen
 
+    def edge_dominates(self, b, tgt, x):
+        """every path from the entry to block x takes the edge b->tgt."""
+        if x not in self.live_blocks:
+            return False
+        seen = set()
+        st = [0]
+        while st:
+            y = st.pop()
+            if y in seen:
+                continue
+            seen.add(y)
+            if y == x:
+                return False
+            for s_ in self.succ[y]:
+                if y == b and s_ == tgt:
+                    # an edge b->tgt that is duplicated (both arms to the same block) is not a decision
+                    continue
+                st.append(s_)
+        return self.succ[b].count(tgt) == 1
+
     def reachable_edges(self, start_edges, avoid=(), avoid_edges=()):
         """Blocks reachable when starting by taking the given (from,to) edges."""
         return self.reachable([t for (_f, t) in start_edges], avoid=avoid)
